@@ -75,7 +75,8 @@ class C02(core.Check):
                             'observed': {'order': k, 'info': {a: b for a, b in info.items()}},
                             'params': {'simulator': 'fast' if sess['fast'] else 'step',
                                        'in_gap_only': bool(info.get('in_gap_only')),
-                                       'market_priced_at_path_position': info.get('market_priced_at_path_position')}})
+                                       'market_priced_at_path_position': info.get('market_priced_at_path_position'),
+                                       'jumped_over_by_out_of_order_fill': info.get('jumped_over_by_out_of_order_fill')}})
             if not bad and len(res.samples) < 3:
                 res.sample({'routes': sess['routes'], 'fast': sess['fast'], 'orders': len(tr.orders),
                             'max_fills_in_one_minute': max(multi.values()) if multi else 0})
